@@ -144,6 +144,25 @@ def check_mol(n, csel, catom, c0, btype, version, kind):
             return f"metadata read back as {dict(md)}"
         if not (g == f):
             return "SD file read back is not equal to the written one"
+        # editing a record of a file that was READ (records are parsed on access) through item access: the edit is part of
+        # the file afterwards
+        from biotite.structure.io import mol as molio
+        h = SDFile.read(io.StringIO(text))
+        h["r0"].metadata = Metadata({"Edited": "yes"})
+        h["r0"].header = Header(mol_name="r0", comments="edited")
+        molio.set_structure(h, atoms, version=ver, record_name="r0")
+        out2 = io.StringIO()
+        h.write(out2)
+        k = SDFile.read(io.StringIO(out2.getvalue()))
+        if list(k.keys()) != ["r1", "r0"]:
+            return f"record names/order after an edit {list(k.keys())}"
+        if dict(k["r0"].metadata) != dict(Metadata({"Edited": "yes"})) or k["r0"].header.comments != "edited":
+            return f"edit of a record of a read file is lost: metadata {dict(k['r0'].metadata)}, header {k['r0'].header}"
+        e = k["r0"].get_structure()
+        if e.element.tolist() != atoms.element.tolist() or e.bonds.as_set() != atoms.bonds.as_set() or not np.allclose(e.coord, atoms.coord, atol=0.000051):
+            return "structure set into a record of a read file is lost"
+        if k["r1"].get_structure().element.tolist() != atoms.element.tolist() or k["r1"].metadata["Some_Key"] != "line1\nline2":
+            return "the untouched record changed"
     if back.element.tolist() != atoms.element.tolist():
         return f"elements {back.element.tolist()}"
     if not np.allclose(back.coord, atoms.coord, atol=0.000051):
@@ -251,6 +270,79 @@ def ob_molfiles(tier):
     return cases
 
 
+def _ring(sub, kekule_shift, aromatic):
+    """six-membered carbon ring with one substituent per ring atom (valences complete)"""
+    import biotite.structure as struc
+    n = 12
+    a = struc.AtomArray(n)
+    a.element[:] = ["C"] * 6 + [sub] * 6
+    ang = np.arange(6) * np.pi / 3
+    a.coord[:6] = np.stack([1.4 * np.cos(ang), 1.4 * np.sin(ang), np.zeros(6)], axis=1)
+    a.coord[6:] = np.stack([3.1 * np.cos(ang), 3.1 * np.sin(ang), np.zeros(6)], axis=1)
+    a.add_annotation("charge", int)
+    B = struc.BondType
+    bonds = []
+    for i in range(6):
+        dbl = (i + kekule_shift) % 2 == 0
+        t = (B.AROMATIC_DOUBLE if dbl else B.AROMATIC_SINGLE) if aromatic else (B.DOUBLE if dbl else B.SINGLE)
+        bonds.append([i, (i + 1) % 6, int(t)])
+        bonds.append([i, i + 6, int(B.SINGLE)])
+    a.bonds = struc.BondList(n, np.array(bonds, dtype=np.int64))
+    return a
+
+
+def _small(kind):
+    import biotite.structure as struc
+    B = struc.BondType
+    spec = {"CO2": (["C", "O", "O"], [[0, 1, B.DOUBLE], [0, 2, B.DOUBLE]], [0, 0, 0]),
+            "N2": (["N", "N"], [[0, 1, B.TRIPLE]], [0, 0]),
+            "CCl4": (["C", "CL", "CL", "CL", "CL"], [[0, k, B.SINGLE] for k in range(1, 5)], [0] * 5),
+            "Cl-": (["CL"], [], [-1]),
+            "NO3-": (["N", "O", "O", "O"], [[0, 1, B.DOUBLE], [0, 2, B.SINGLE], [0, 3, B.SINGLE]], [1, 0, -1, -1]),
+            "HCN": (["H", "C", "N"], [[0, 1, B.SINGLE], [1, 2, B.TRIPLE]], [0, 0, 0])}[kind]
+    a = struc.AtomArray(len(spec[0]))
+    a.element[:] = spec[0]
+    a.coord[:] = [[1.2 * k, 0.3 * k * k, 0] for k in range(len(spec[0]))]
+    a.set_annotation("charge", np.array(spec[2], dtype=int))
+    a.bonds = struc.BondList(len(spec[0]), np.array([[i, j, int(t)] for i, j, t in spec[1]], dtype=np.int64).reshape(-1, 3))
+    return a
+
+
+RD_MOLS = [("ring", "H", 0, False), ("ring", "H", 1, False), ("ring", "H", 0, True), ("ring", "CL", 0, False), ("ring", "CL", 1, False),
+           ("ring", "F", 0, False), ("ring", "CL", 0, True), ("small", "CO2"), ("small", "N2"), ("small", "CCl4"), ("small", "Cl-"),
+           ("small", "NO3-"), ("small", "HCN")]
+
+
+def check_rdkit_default(mi, nmodels):
+    """complete molecules (every valence filled, with and without hydrogen atoms) through the bridge with DEFAULT options:
+    nothing may be added, removed, reordered or retyped"""
+    import warnings
+    import biotite.structure as struc
+    import biotite.interface.rdkit as rd
+    m = RD_MOLS[mi]
+    atoms = _ring(*m[1:]) if m[0] == "ring" else _small(m[1])
+    src = struc.stack([atoms] * nmodels)
+    for k in range(nmodels):
+        src.coord[k] += 0.125 * k
+    with warnings.catch_warnings():
+        warnings.simplefilter("ignore")
+        mol = rd.to_mol(src)
+        back = rd.from_mol(mol)
+    if mol.GetNumConformers() != nmodels or back.stack_depth() != nmodels:
+        return f"{m}: {mol.GetNumConformers()} conformers, {back.stack_depth()} models for {nmodels} models"
+    if back.element.tolist() != atoms.element.tolist() or back.charge.tolist() != atoms.charge.tolist():
+        return f"{m}: elements / charges back {back.element.tolist()} {back.charge.tolist()}"
+    if not np.allclose(back.coord, src.coord, atol=1e-4):
+        return f"{m}: coordinates / model order"
+    # RDKit has ONE aromatic bond type: which of the two Kekule assignments comes back for an aromatic ring is not
+    # determined (both describe the same molecule), so aromatic single / double are compared as 'aromatic' plus their counts
+    def norm(bs):
+        return sorted((i, j, 5 if t in (5, 6) else t) for i, j, t in bs), sum(1 for _, _, t in bs if t == 6)
+    if norm(back.bonds.as_set()) != norm(atoms.bonds.as_set()):
+        return f"{m}: bonds written {sorted(atoms.bonds.as_set())} back {sorted(back.bonds.as_set())}"
+    return None
+
+
 def ob_rdkit(tier):
     n, bt, nm, c0 = z3.Ints("n bt nm c0")
     base = [n >= 1, n <= 3, bt >= 0, bt < 4, nm >= 1, nm <= 3, c0 >= 0, c0 <= 1]
@@ -258,7 +350,14 @@ def ob_rdkit(tier):
     def run():
         ex = cur()
         return check_rdkit(ex.choose(n, range(1, 4)), ex.choose(bt, range(4)), ex.choose(nm, range(1, 4)), ex.choose(c0, range(2))) is None
-    return [Case("RDKit to_mol/from_mol", base, run, dict(n=n, btype=bt, nmodels=nm, c0=c0), _rep(check_rdkit, "n", "btype", "nmodels", "c0"))]
+    mi, nm2 = z3.Ints("mi nm2")
+
+    def run_default():
+        ex = cur()
+        return check_rdkit_default(ex.choose(mi, range(len(RD_MOLS))), ex.choose(nm2, range(1, 3))) is None
+    return [Case("RDKit to_mol/from_mol", base, run, dict(n=n, btype=bt, nmodels=nm, c0=c0), _rep(check_rdkit, "n", "btype", "nmodels", "c0")),
+            Case("RDKit bridge with default options on complete molecules", [mi >= 0, mi < len(RD_MOLS), nm2 >= 1, nm2 <= 2], run_default,
+                 dict(mi=mi, nmodels=nm2), _rep(check_rdkit_default, "mi", "nmodels"))]
 
 
 # ------------------------------------------------------------------------------ key components
